@@ -45,7 +45,11 @@ def extract_dtype(v, vops: list[Any]):
     is_real = isinstance(v, (ufl.classes.Real, ufl.classes.Imag))
     if is_real:
         return L.DataType.REAL
-    return L.merge_dtypes(dtypes)
+    dtype = L.merge_dtypes(dtypes)
+    if isinstance(v, ufl.classes.Division) and dtype == L.DataType.INT:
+        # The quotient of two integer-valued expressions is not an integer
+        return L.DataType.REAL
+    return dtype
 
 
 class IntegralGenerator:
